@@ -1,100 +1,698 @@
-(* EngineProofs.v — lemmas about the engine model: refused input (C17), termination and
-   session end (C06, C20), language (C18). *)
+(* EngineProofs.v — lemmas about the engine model: how Exec decomposes (prepare / init / the
+   part after init), Flush on an engine whose output was delivered, refused input (C17) in
+   long-lived and in persisted operation. *)
 From Coq Require Import Lia ZifyN ZifyNat ZifyBool.
-From Vise Require Import Bytes Errors Consts EngConsts Codec CacheModel StateModel NavModel RenderModel VmModel EngineModel VmProofs.
+From Vise Require Import Bytes Errors Consts EngConsts Codec CacheModel StateModel NavModel RenderModel VmModel EngineModel
+  BytesProofs CodecProofs VmProofs.
 Local Open Scope N_scope.
+
+(* ---- small facts ------------------------------------------------------------------------------ *)
+Lemma eset_v_same : forall e, eset_v e (e_v e) = e.
+Proof. destruct e; reflexivity. Qed.
+
+Lemma encode_nonempty : forall i, encode i <> [].
+Proof. intros i. destruct (encode_shape i) as [a [b [t H]]]. rewrite H. discriminate. Qed.
+
+Lemma state_eta_input : forall s, set_input_raw s (s_input s) = s.
+Proof. destruct s; reflexivity. Qed.
 
 (* ---- Flush on an engine whose output was already delivered -------------------------------- *)
 Lemma vm_render_clean : forall fuel rs sep lang v,
   getf (v_st v) FLAG_DIRTY = false -> vm_render fuel rs sep lang v = (v, RROk []).
-Proof. intros. unfold vm_render. rewrite H. reflexivity. Qed.
+Proof. intros fuel rs sep lang v H. unfold vm_render. rewrite H. reflexivity. Qed.
+
+(* the exit value alone is larger than the output size *)
+Definition exit_over (c : config) (x : bytes) : bool :=
+  (0 <? c_out c) && (0 <? len x) && (c_out c <? w32 (len x + 0)).
+
+Lemma exit_over_nil : forall c, exit_over c [] = false.
+Proof. intros c. unfold exit_over. change (len (@nil N)) with 0. rewrite N.ltb_irrefl, andb_false_r. reflexivity. Qed.
+
+(* nothing to render, not exiting: Flush writes the exit value (if any) and changes nothing *)
+Lemma eng_flush_settled : forall fuel rs c e,
+  e_execd e = true -> getf (v_st (e_v e)) FLAG_DIRTY = false -> e_exiting e = false ->
+  eng_flush fuel rs c e = if exit_over c (e_exit e) then (e, [], FErr EGen) else (e, e_exit e, FOk).
+Proof.
+  intros fuel rs c e Hx Hd Hq. destruct e as [v i x q d]. cbn [e_execd e_v e_exiting e_exit] in *. subst.
+  unfold eng_flush. cbn [e_execd negb e_v]. rewrite vm_render_clean by exact Hd.
+  cbn [eset_v e_exit e_exiting e_v e_initd e_execd]. unfold exit_over. change (len (@nil N)) with 0.
+  destruct ((0 <? c_out c) && (0 <? len x) && (c_out c <? w32 (len x + 0))); [reflexivity|].
+  destruct x; reflexivity.
+Qed.
 
 Lemma eng_flush_idle : forall fuel rs c e,
   e_execd e = true -> getf (v_st (e_v e)) FLAG_DIRTY = false -> e_exiting e = false -> e_exit e = [] ->
   eng_flush fuel rs c e = (e, [], FOk).
 Proof.
-  intros fuel rs c e Hx Hd Hq He. unfold eng_flush. rewrite Hx. cbn [negb].
-  rewrite vm_render_clean by exact Hd. rewrite He, Hq.
-  destruct e as [v i x q d]. cbn in *. subst.
-  rewrite andb_false_r. cbn. reflexivity.
+  intros fuel rs c e Hx Hd Hq He. rewrite eng_flush_settled by assumption.
+  rewrite He, exit_over_nil. reflexivity.
+Qed.
+
+(* C17: asking for output before anything was executed *)
+Lemma flush_before_exec : forall fuel rs c e,
+  e_execd e = false -> eng_flush fuel rs c e = (e, [], FErr EFlushNoExec).
+Proof. intros fuel rs c e H. unfold eng_flush. rewrite H. reflexivity. Qed.
+
+(* ---- Exec = init, then the part after init ---------------------------------------------------- *)
+Definition exec_tail (fuel : nat) (rs : rsrc) (c : config) (e1 : engine) (input : bytes) : engine * bool * stat :=
+  let '(e2, s2) := if c_reset_empty c && (len input =? 0) then eng_reset_force c e1 else (e1, SOk) in
+  match s2 with
+  | SOk =>
+    if (0 <? len input) && negb (valid_input_b input) then (e2, true, SErr EGen None) else
+    match set_input (v_st (e_v e2)) (Some input) with
+    | Err er => (e2, false, SErr er None)
+    | Panic n => (e2, false, SPanic n)
+    | Ok st' => eng_exec_inner fuel rs c (eset_v e2 (vset_st (e_v e2) st'))
+    end
+  | _ => (e2, false, s2)
+  end.
+
+Lemma eng_exec_unfold : forall fuel rs c e input,
+  eng_exec fuel rs c e input =
+  let '(e1, cont, s) := eng_init fuel rs c e input in
+  match s with
+  | SOk => if negb cont then (e1, false, SOk) else exec_tail fuel rs c e1 input
+  | _ => (e1, false, s)
+  end.
+Proof. reflexivity. Qed.
+
+(* the engine as prepare leaves it *)
+Definition cleared (e : engine) : engine := mkEng (e_v e) (e_initd e) [] false false.
+(* the last Flush rendered what there was to render and completed a pending session end *)
+Definition settled (e : engine) : Prop :=
+  e_execd e = true -> getf (v_st (e_v e)) FLAG_DIRTY = false /\ e_exiting e = false.
+(* a settled engine whose exit value alone exceeds the output size: every further request fails in prepare *)
+Definition stuck (c : config) (e : engine) : bool := e_execd e && exit_over c (e_exit e).
+
+Lemma cleared_settled : forall e, settled (cleared e).
+Proof. intros e H. discriminate. Qed.
+Lemma cleared_not_stuck : forall c e, stuck c (cleared e) = false.
+Proof. reflexivity. Qed.
+Lemma cleared_cleared : forall e, cleared (cleared e) = cleared e.
+Proof. reflexivity. Qed.
+
+Lemma eng_init_initd : forall fuel rs c e input,
+  e_initd e = true -> settled e ->
+  eng_init fuel rs c e input = if stuck c e then (e, false, SErr EGen None) else (cleared e, true, SOk).
+Proof.
+  intros fuel rs c e input Hi Hs. unfold eng_init, stuck.
+  destruct (e_execd e) eqn:Hx.
+  - destruct (Hs Hx) as [Hd Hq]. rewrite eng_flush_settled by assumption. cbn [andb].
+    destruct (exit_over c (e_exit e)); cbn [stat_of_f]; [reflexivity|].
+    cbn [e_initd e_v]. unfold cleared. rewrite Hi. reflexivity.
+  - cbn [andb e_initd e_v]. unfold cleared. rewrite Hi. reflexivity.
+Qed.
+
+Lemma eng_exec_initd : forall fuel rs c e input,
+  e_initd e = true -> settled e ->
+  eng_exec fuel rs c e input =
+  if stuck c e then (e, false, SErr EGen None) else exec_tail fuel rs c (cleared e) input.
+Proof.
+  intros fuel rs c e input Hi Hs. rewrite eng_exec_unfold, eng_init_initd by assumption.
+  destruct (stuck c e); reflexivity.
 Qed.
 
 (* ---- C17: refused input ----------------------------------------------------------------------- *)
 Definition refused (i : bytes) : Prop :=
   INPUT_LIMIT < len i \/ (0 < len i /\ valid_input_b i = false).
 
-(* long-lived engine, initialised, last output delivered: the request fails and the engine's
-   state, cache, page, world and log are exactly what they were *)
-Lemma refused_long : forall fuel rs c e input,
-  refused input -> e_initd e = true ->
-  (e_execd e = false \/ (getf (v_st (e_v e)) FLAG_DIRTY = false /\ e_exiting e = false /\ e_exit e = [])) ->
-  exists cont er,
-    eng_exec fuel rs c e input = (mkEng (e_v e) true [] false false, cont, SErr er None).
+Lemma refused_nonempty : forall i, refused i -> 0 < len i.
+Proof. intros i [H|[H _]]; unfold INPUT_LIMIT in *; lia. Qed.
+
+(* the part after init refuses the input before touching anything; Exec's continue result is
+   true for a pattern failure and false for an over-long input that matches the pattern *)
+Lemma exec_tail_refused : forall fuel rs c e1 input,
+  refused input -> exec_tail fuel rs c e1 input = (e1, negb (valid_input_b input), SErr EGen None).
 Proof.
-  intros fuel rs c e input Hr Hi Hx. unfold eng_exec, eng_init.
-  assert (Hpre : (if e_execd e then let '(e', _, f) := eng_flush fuel rs c e in (e', stat_of_f f) else (e, SOk)) = (e, SOk)).
-  { destruct (e_execd e) eqn:Hd; [|reflexivity].
-    destruct Hx as [Hx|[H1 [H2 H3]]]; [discriminate|].
-    rewrite eng_flush_idle by assumption. reflexivity. }
-  rewrite Hpre. cbn [e_initd e_v]. rewrite Hi.
-  assert (Hlen : 0 < len input) by (destruct Hr as [H|[H _]]; unfold INPUT_LIMIT in *; lia).
+  intros fuel rs c e1 input Hr. unfold exec_tail.
+  assert (Hlen : 0 < len input) by (apply refused_nonempty; exact Hr).
   assert (Hne : (c_reset_empty c && (len input =? 0)) = false).
   { apply andb_false_intro2. apply N.eqb_neq. lia. }
   rewrite Hne.
-  destruct (valid_input_b input) eqn:Hv.
-  - destruct Hr as [Hl|[_ Hf]]; [|congruence].
-    assert (H0 : (0 <? len input) && negb true = false) by apply andb_false_r.
-    rewrite H0. unfold set_input. cbn [e_v].
-    assert (Hlim : INPUT_LIMIT <? len input = true) by (apply N.ltb_lt; exact Hl).
-    rewrite Hlim. eauto.
-  - assert (H0 : (0 <? len input) && negb false = true).
-    { apply andb_true_intro. split; [apply N.ltb_lt; exact Hlen|reflexivity]. }
-    rewrite H0. eauto.
+  assert (Hpos : (0 <? len input) = true) by (apply N.ltb_lt; exact Hlen).
+  rewrite Hpos. cbn [andb].
+  destruct (valid_input_b input) eqn:Hv; cbn [negb]; [|reflexivity].
+  destruct Hr as [Hl|[_ Hf]]; [|congruence].
+  unfold set_input.
+  assert (Hlim : INPUT_LIMIT <? len input = true) by (apply N.ltb_lt; exact Hl).
+  rewrite Hlim. reflexivity.
 Qed.
+
+(* long-lived engine, initialised, last output delivered: the request fails and the engine's
+   machine (state incl. pending code, cache, page, world, ghost log) is exactly what it was *)
+Lemma refused_exec_settled : forall fuel rs c e input,
+  refused input -> e_initd e = true -> settled e ->
+  eng_exec fuel rs c e input =
+  if stuck c e then (e, false, SErr EGen None)
+  else (cleared e, negb (valid_input_b input), SErr EGen None).
+Proof.
+  intros fuel rs c e input Hr Hi Hs. rewrite eng_exec_initd by assumption.
+  destruct (stuck c e); [reflexivity|]. apply exec_tail_refused. exact Hr.
+Qed.
+
+Definition delivered (e : engine) : Prop :=
+  e_execd e = false \/ (getf (v_st (e_v e)) FLAG_DIRTY = false /\ e_exiting e = false /\ e_exit e = []).
+
+Lemma delivered_settled : forall e, delivered e -> settled e.
+Proof. intros e [H|[H1 [H2 _]]] Hx; [congruence|auto]. Qed.
+Lemma delivered_not_stuck : forall c e, delivered e -> stuck c e = false.
+Proof.
+  intros c e [H|[_ [_ H]]]; unfold stuck; [rewrite H; reflexivity|].
+  rewrite H, exit_over_nil. apply andb_false_r.
+Qed.
+
+Lemma refused_long : forall fuel rs c e input,
+  refused input -> e_initd e = true -> delivered e ->
+  eng_exec fuel rs c e input = (mkEng (e_v e) true [] false false, negb (valid_input_b input), SErr EGen None)
+  /\ eng_flush fuel rs c (mkEng (e_v e) true [] false false) = (mkEng (e_v e) true [] false false, [], FErr EFlushNoExec)
+  /\ request_long fuel rs c e input
+     = (mkEng (e_v e) true [] false false, mkResp (negb (valid_input_b input)) (SErr EGen None) [] (FErr EFlushNoExec)).
+Proof.
+  intros fuel rs c e input Hr Hi Hd.
+  assert (He : eng_exec fuel rs c e input = (mkEng (e_v e) true [] false false, negb (valid_input_b input), SErr EGen None)).
+  { rewrite refused_exec_settled by (try assumption; apply delivered_settled; exact Hd).
+    rewrite delivered_not_stuck by exact Hd. unfold cleared. rewrite Hi. reflexivity. }
+  split; [exact He|]. split; [reflexivity|].
+  unfold request_long. rewrite He. reflexivity.
+Qed.
+
+(* general form: any settled initialised engine.  A request with a refused input either leaves the
+   engine as prepare leaves it (exit value handed out and cleared) or, when the engine is stuck,
+   exactly as it is; either way the NEXT request is served exactly as if the refused one had not
+   been sent *)
+Lemma request_long_settled : forall fuel rs c e input,
+  e_initd e = true -> settled e ->
+  request_long fuel rs c e input =
+  if stuck c e then (e, mkResp false (SErr EGen None) [] (FErr EGen))
+  else let '(e1, cont, s) := exec_tail fuel rs c (cleared e) input in
+       match s with
+       | SPanic n => (e1, mkResp cont s [] (FPanic n))
+       | SFuel => (e1, mkResp cont s [] FFuel)
+       | _ => let '(e2, out, f) := eng_flush fuel rs c e1 in (e2, mkResp cont s out f)
+       end.
+Proof.
+  intros fuel rs c e input Hi Hs. unfold request_long. rewrite eng_exec_initd by assumption.
+  destruct (stuck c e) eqn:Hk; [|reflexivity].
+  unfold stuck in Hk. apply andb_true_iff in Hk as [Hx Ho].
+  destruct (Hs Hx) as [Hd Hq]. rewrite eng_flush_settled by assumption. rewrite Ho. reflexivity.
+Qed.
+
+Lemma refused_request_settled : forall fuel rs c e input,
+  refused input -> e_initd e = true -> settled e ->
+  request_long fuel rs c e input =
+  if stuck c e then (e, mkResp false (SErr EGen None) [] (FErr EGen))
+  else (cleared e, mkResp (negb (valid_input_b input)) (SErr EGen None) [] (FErr EFlushNoExec)).
+Proof.
+  intros fuel rs c e input Hr Hi Hs. rewrite request_long_settled by assumption.
+  destruct (stuck c e); [reflexivity|]. rewrite exec_tail_refused by exact Hr. reflexivity.
+Qed.
+
+Lemma request_long_cleared : forall fuel rs c e input,
+  e_initd e = true -> settled e -> stuck c e = false ->
+  request_long fuel rs c (cleared e) input = request_long fuel rs c e input.
+Proof.
+  intros fuel rs c e input Hi Hs Hk.
+  rewrite (request_long_settled fuel rs c e) by assumption.
+  rewrite (request_long_settled fuel rs c (cleared e)) by (try exact Hi; apply cleared_settled).
+  rewrite cleared_not_stuck, cleared_cleared, Hk. reflexivity.
+Qed.
+
+(* the next request after a refused one *)
+Lemma refused_then_next : forall fuel rs c e bad input,
+  refused bad -> e_initd e = true -> settled e ->
+  request_long fuel rs c (fst (request_long fuel rs c e bad)) input = request_long fuel rs c e input.
+Proof.
+  intros fuel rs c e bad input Hr Hi Hs. rewrite (refused_request_settled fuel rs c e bad) by assumption.
+  destruct (stuck c e) eqn:Hk; cbn [fst]; [reflexivity|].
+  apply request_long_cleared; assumption.
+Qed.
+
+(* ---- reset as a function of state and cache -------------------------------------------------- *)
+Definition reset_sc (st0 : state) (ca0 : cache) : state * cache * stat :=
+  let '(st, ca, s) := unwind (S (List.length (s_path st0))) st0 ca0 in
+  match s with
+  | SOk => let st := match st_restart st with Ok st' => st' | _ => st end in
+           (resetf (resetf st FLAG_TERMINATE) FLAG_DIRTY, ca, SOk)
+  | _ => (st, ca, s)
+  end.
+
+Lemma eng_reset_inner_sc : forall v,
+  eng_reset_inner v = let '(st, ca, s) := reset_sc (v_st v) (v_ca v) in (vset_ca (vset_st v st) ca, s).
+Proof.
+  intros v. unfold eng_reset_inner, reset_sc.
+  destruct (unwind _ (v_st v) (v_ca v)) as [[st ca] s]. destruct s; reflexivity.
+Qed.
+
+Lemma unwind_ok : forall fuel st ca, s_path st <> [] -> snd (unwind fuel st ca) = SOk.
+Proof.
+  induction fuel as [|f IH]; intros st ca Hp; [reflexivity|].
+  cbn [unwind]. unfold st_top, st_up.
+  destruct (s_path st) as [|a [|b r]] eqn:Ep; [congruence| |].
+  - reflexivity.
+  - apply IH. cbn [s_path set_path_idx]. cbn [removelast]. destruct r; discriminate.
+Qed.
+
+(* unwind never looks at the input *)
+Lemma unwind_input : forall fuel st ca x,
+  unwind fuel (set_input_raw st x) ca =
+  let '(st', ca', s) := unwind fuel st ca in (set_input_raw st' x, ca', s).
+Proof.
+  induction fuel as [|f IH]; intros st ca x; [reflexivity|].
+  cbn [unwind]. unfold st_top, st_up. cbn [s_path set_input_raw].
+  destruct (s_path st) as [|a [|b r]] eqn:Ep.
+  - reflexivity.
+  - reflexivity.
+  - change (set_path_idx (set_input_raw st x) (removelast (a :: b :: r)) 0)
+      with (set_input_raw (set_path_idx st (removelast (a :: b :: r)) 0) x).
+    rewrite IH. reflexivity.
+Qed.
+
+Lemma resetf_input : forall s x f, resetf (set_input_raw s x) f = set_input_raw (resetf s f) x.
+Proof. reflexivity. Qed.
+
+Lemma reset_sc_input : forall s ca x, exists y,
+  reset_sc (set_input_raw s x) ca = let '(st, ca', r) := reset_sc s ca in (set_input_raw st y, ca', r).
+Proof.
+  intros s ca x. unfold reset_sc. cbn [s_path set_input_raw]. rewrite unwind_input.
+  destruct (unwind (S (List.length (s_path s))) s ca) as [[st ca'] r].
+  destruct r; try (exists x; reflexivity).
+  unfold st_restart. cbn [s_path set_input_raw].
+  destruct (s_path st) as [|a p] eqn:Ep.
+  - exists x. reflexivity.
+  - exists (Some []). reflexivity.
+Qed.
+
+Lemma unwind_code : forall fuel st ca, s_code (fst (fst (unwind fuel st ca))) = s_code st.
+Proof.
+  induction fuel as [|f IH]; intros st ca; [reflexivity|].
+  cbn [unwind]. unfold st_top, st_up.
+  destruct (s_path st) as [|a [|b r]] eqn:Ep; [reflexivity|reflexivity|].
+  rewrite IH. reflexivity.
+Qed.
+Lemma reset_sc_code : forall s ca, s_code (fst (fst (reset_sc s ca))) = s_code s.
+Proof.
+  intros s ca. unfold reset_sc.
+  pose proof (unwind_code (S (List.length (s_path s))) s ca) as H.
+  destruct (unwind _ s ca) as [[st ca'] r]. cbn [fst] in H.
+  destruct r; cbn [fst]; try exact H.
+  unfold st_restart. destruct (s_path st); cbn [s_code resetf set_flags]; exact H.
+Qed.
+
+Definition stale (s : state) : bool :=
+  match s_code s, s_path s with [], _ :: _ => negb (getf s FLAG_TERMINATE) | _, _ => false end.
+
+(* what init does to the state and the cache of a newly built engine (no entry function) *)
+Definition init_sc (c : config) (s : state) (ca : cache) : state * cache :=
+  match s_code s with
+  | [] =>
+    let '(s1, ca1) := if stale s then (let '(st, ca', _) := reset_sc s ca in (st, ca')) else (s, ca) in
+    (set_input_raw (set_code s1 (encode (IMove (cfg_root c)))) (s_input s), ca1)
+  | _ => (s, ca)
+  end.
+
+Lemma reset_sc_ok : forall s ca, s_path s <> [] -> snd (reset_sc s ca) = SOk.
+Proof.
+  intros s ca Hp. unfold reset_sc.
+  pose proof (unwind_ok (S (List.length (s_path s))) s ca Hp) as H.
+  destruct (unwind _ s ca) as [[st ca'] r]. cbn [snd] in H. subst r. reflexivity.
+Qed.
+
+Lemma eng_init_fresh : forall fuel rs c s ca pg w lg t input,
+  c_first c = None -> len input <= INPUT_LIMIT ->
+  eng_init fuel rs c (mkEng (mkVm s ca pg w lg t) false [] false false) input =
+  (let '(s', ca') := init_sc c s ca in mkEng (mkVm s' ca' pg w lg t) true [] false false, true, SOk).
+Proof.
+  intros fuel rs c s ca pg w lg t input Hf Hl. unfold eng_init.
+  cbn [e_execd e_v e_initd v_st]. unfold set_input.
+  assert (Hlim : INPUT_LIMIT <? len input = false) by (apply N.ltb_ge; exact Hl).
+  rewrite Hlim. unfold run_first. rewrite Hf. cbn [negb eset_v e_v vset_st v_st v_ca v_pg v_w v_log v_taint
+    e_initd e_exit e_exiting e_execd s_code s_path set_input_raw].
+  unfold init_sc, stale.
+  destruct (s_code s) as [|c0 cr] eqn:Ec.
+  - destruct (s_path s) as [|p0 pr] eqn:Ep.
+    + unfold set_code_eng. cbn [e_v vset_st v_st set_code]. 
+      destruct (encode (IMove (cfg_root c))) as [|x y] eqn:Ee; [exfalso; eapply encode_nonempty; exact Ee|].
+      cbn [e_v eset_v vset_st v_st s_code set_input_raw]. rewrite ?Ec.
+      cbn [eset_v e_v vset_st v_st v_ca v_pg v_w v_log v_taint e_initd e_exit e_exiting e_execd set_code set_input_raw
+           s_code s_path s_bitsize s_idx s_flags s_lang s_input].
+      reflexivity.
+    + change (getf (set_input_raw s (Some input)) FLAG_TERMINATE) with (getf s FLAG_TERMINATE).
+      destruct (getf s FLAG_TERMINATE) eqn:Et; cbn [negb].
+      * unfold set_code_eng. cbn [e_v vset_st v_st set_code].
+        destruct (encode (IMove (cfg_root c))) as [|x y] eqn:Ee; [exfalso; eapply encode_nonempty; exact Ee|].
+        cbn [e_v eset_v vset_st v_st s_code set_input_raw]. rewrite ?Ec.
+        cbn [eset_v e_v vset_st v_st v_ca v_pg v_w v_log v_taint e_initd e_exit e_exiting e_execd set_code set_input_raw
+             s_code s_path s_bitsize s_idx s_flags s_lang s_input].
+        reflexivity.
+      * rewrite eng_reset_inner_sc. cbn [v_st v_ca e_v eset_v vset_st].
+        destruct (reset_sc_input s ca (Some input)) as [y Hy]. rewrite Hy.
+        assert (Hok : snd (reset_sc s ca) = SOk) by (apply reset_sc_ok; rewrite Ep; discriminate).
+        pose proof (reset_sc_code s ca) as Hcode.
+        destruct (reset_sc s ca) as [[st ca'] r]. cbn [snd] in Hok. cbn [fst] in Hcode. subst r.
+        cbn [eset_v e_v vset_st vset_ca v_st v_ca v_pg v_w v_log v_taint e_initd e_exit e_exiting e_execd s_code].
+        unfold set_code_eng. cbn [e_v vset_st v_st set_code].
+        destruct (encode (IMove (cfg_root c))) as [|x z] eqn:Ee; [exfalso; eapply encode_nonempty; exact Ee|].
+        cbn [e_v eset_v vset_st vset_ca v_st s_code set_input_raw]. rewrite ?Hcode, ?Ec.
+        cbn [eset_v e_v vset_st v_st v_ca v_pg v_w v_log v_taint e_initd e_exit e_exiting e_execd set_code set_input_raw
+             s_code s_path s_bitsize s_idx s_flags s_lang s_input].
+        reflexivity.
+  - cbn [eset_v e_v vset_st v_st v_ca v_pg v_w v_log v_taint e_initd e_exit e_exiting e_execd set_code set_input_raw
+             s_code s_path s_bitsize s_idx s_flags s_lang s_input].
+    rewrite Ec. destruct s; cbn in *; reflexivity.
+Qed.
+
+(* ---- persisted operation ------------------------------------------------------------------------ *)
+Definition sess (c : config) (o : option snapshot) : snapshot :=
+  match o with Some sc => sc | None => (fresh_state c, fresh_cache c) end.
+
+Lemma new_engine_sess : forall c o w lg,
+  new_engine c o w lg =
+  mkEng (mkVm (fst (sess c o)) (snd (sess c o)) (new_vm_page (c_out c) (c_sep c)) w lg false) false [] false false.
+Proof. intros c [[s ca]|] w lg; reflexivity. Qed.
+
+(* everything request_persisted does after Exec *)
+Definition pers_finish (fuel : nat) (rs : rsrc) (c : config) (p : pworld) (store0 : option snapshot)
+  (x : engine * bool * stat) : pworld * response :=
+  let '(e1, cont, s) := x in
+  match s with
+  | SPanic n => (mkPw store0 (v_w (e_v e1)) (v_log (e_v e1)) (pw_taint p || v_taint (e_v e1)), mkResp cont s [] (FPanic n))
+  | SFuel => (mkPw store0 (v_w (e_v e1)) (v_log (e_v e1)) (pw_taint p || v_taint (e_v e1)), mkResp cont s [] FFuel)
+  | _ =>
+    let '(e2, out, f) := eng_flush fuel rs c e1 in
+    match f with
+    | FPanic _ | FFuel =>
+      (mkPw store0 (v_w (e_v e2)) (v_log (e_v e2)) (pw_taint p || v_taint (e_v e2)), mkResp cont s out f)
+    | _ =>
+      let store1 := match eng_finish e2 with Some sn => Some sn | None => store0 end in
+      (mkPw store1 (v_w (e_v e2)) (v_log (e_v e2)) (pw_taint p || v_taint (e_v e2)), mkResp cont s out f)
+    end
+  end.
+
+Definition store0_of (c : config) (o : option snapshot) : option snapshot :=
+  match o with Some s => Some s | None => Some (snap_of (fst (sess c None)) (snd (sess c None))) end.
+
+Lemma request_persisted_finish : forall fuel rs c p input,
+  request_persisted fuel rs c p input =
+  pers_finish fuel rs c p (store0_of c (pw_store p))
+    (eng_exec fuel rs c (new_engine c (pw_store p) (pw_w p) (pw_log p)) input).
+Proof. intros fuel rs c p input. unfold request_persisted, pers_finish, store0_of. destruct (pw_store p) as [[s ca]|]; reflexivity. Qed.
+
+(* the stored session as the next engine's init would leave it: an empty pending code is
+   replaced by "MOVE <root>", after unwinding a stale position *)
+Definition norm_snap (c : config) (sn : snapshot) : snapshot :=
+  let '(s', ca') := init_sc c (fst sn) (snd sn) in snap_of s' ca'.
+
+Lemma eng_exec_fresh : forall fuel rs c s ca pg w lg t input,
+  c_first c = None ->
+  eng_exec fuel rs c (mkEng (mkVm s ca pg w lg t) false [] false false) input =
+  if INPUT_LIMIT <? len input then (mkEng (mkVm s ca pg w lg t) false [] false false, false, SErr EGen None)
+  else exec_tail fuel rs c (let '(s', ca') := init_sc c s ca in mkEng (mkVm s' ca' pg w lg t) true [] false false) input.
+Proof.
+  intros fuel rs c s ca pg w lg t input Hf. rewrite eng_exec_unfold.
+  destruct (INPUT_LIMIT <? len input) eqn:Hl.
+  - unfold eng_init. cbn [e_execd e_v e_initd v_st]. unfold set_input. rewrite Hl. reflexivity.
+  - rewrite eng_init_fresh by (try assumption; apply N.ltb_ge; exact Hl). reflexivity.
+Qed.
+
+Definition P0 (c : config) : page := new_vm_page (c_out c) (c_sep c).
 
 (* persisted operation, no entry function: a refused request leaves the stored session as it
-   was, up to the injected "MOVE <root>" for an empty pending code, runs no application symbol
-   and produces no output *)
-Definition norm_snap (c : config) (sn : snapshot) : snapshot :=
-  let '(s, ca) := sn in
-  (match s_code s with [] => set_code s (encode (IMove (cfg_root c))) | _ => s end, ca).
-
-Lemma refused_persisted : forall fuel rs c p input s ca,
-  refused input -> c_first c = None -> pw_store p = Some (s, ca) -> s_input s = None ->
-  exists cont er,
-    request_persisted fuel rs c p input
-    = (mkPw (Some (if INPUT_LIMIT <? len input then (s, ca) else norm_snap c (s, ca))) (pw_w p) (pw_log p) (pw_taint p),
-       mkResp cont (SErr er None) [] (FErr EFlushNoExec)).
+   was up to norm_snap, runs nothing, produces no output *)
+Lemma refused_persisted : forall fuel rs c p input,
+  refused input -> c_first c = None ->
+  request_persisted fuel rs c p input =
+  (mkPw (if INPUT_LIMIT <? len input then store0_of c (pw_store p) else Some (norm_snap c (sess c (pw_store p))))
+        (pw_w p) (pw_log p) (pw_taint p),
+   mkResp (if INPUT_LIMIT <? len input then false else true) (SErr EGen None) [] (FErr EFlushNoExec)).
 Proof.
-  intros fuel rs c p input s ca Hr Hf Hs Hin. unfold request_persisted, new_engine. rewrite Hs.
-  unfold eng_exec, eng_init. cbn [e_execd e_initd e_v v_st].
-  assert (Hlen : 0 < len input) by (destruct Hr as [H|[H _]]; unfold INPUT_LIMIT in *; lia).
-  unfold set_input at 1.
-  destruct (INPUT_LIMIT <? len input) eqn:Hlim.
-  - (* too long: refused before anything is initialised; Finish does not save *)
-    cbn [eng_flush e_execd negb eng_finish e_initd e_v v_w v_log v_taint orb].
-    unfold eng_flush. cbn [e_execd negb]. cbn [eng_finish e_initd e_v v_w v_log v_taint].
-    rewrite orb_false_r. eauto.
-  - cbn [vset_st v_st eset_v e_v]. unfold run_first. rewrite Hf.
-    cbn [negb e_v v_st vset_st s_code set_input_raw].
+  intros fuel rs c p input Hr Hf. rewrite request_persisted_finish, new_engine_sess, eng_exec_fresh by exact Hf.
+  destruct (INPUT_LIMIT <? len input) eqn:Hl.
+  - unfold pers_finish. rewrite flush_before_exec by reflexivity.
+    cbn [eng_finish e_initd e_v v_w v_log v_taint]. rewrite orb_false_r. reflexivity.
+  - rewrite exec_tail_refused by exact Hr.
     assert (Hv : valid_input_b input = false).
-    { destruct Hr as [H|[_ H]]; [apply N.ltb_ge in Hlim; lia|exact H]. }
-    assert (Hne : (c_reset_empty c && (len input =? 0)) = false).
-    { apply andb_false_intro2. apply N.eqb_neq. lia. }
-    assert (H0 : (0 <? len input) && negb (valid_input_b input) = true).
-    { rewrite Hv. apply andb_true_intro. split; [apply N.ltb_lt; exact Hlen|reflexivity]. }
-    destruct (s_code s) eqn:Hc.
-    + unfold set_code_eng. cbn [e_v v_st vset_st eset_v set_code encode].
-      cbn [e_v vset_st v_st set_input_raw s_code s_path s_bitsize s_idx s_flags s_lang].
-      rewrite Hne, H0.
-      unfold eng_flush. cbn [e_execd negb eng_finish e_initd e_v v_w v_log v_taint v_st v_ca].
-      rewrite orb_false_r. do 2 eexists. f_equal. f_equal.
-      unfold norm_snap, snap_of. rewrite Hc. f_equal. f_equal.
-      destruct s; cbn in *; subst; reflexivity.
-    + cbn [e_v vset_st v_st].
-      rewrite Hne, H0.
-      unfold eng_flush. cbn [e_execd negb eng_finish e_initd e_v v_w v_log v_taint v_st v_ca].
-      rewrite orb_false_r. do 2 eexists. f_equal. f_equal.
-      unfold norm_snap, snap_of. rewrite Hc. f_equal. f_equal.
-      destruct s; cbn in *; subst; reflexivity.
+    { destruct Hr as [H|[_ H]]; [apply N.ltb_ge in Hl; lia|exact H]. }
+    rewrite Hv. cbn [negb]. unfold norm_snap.
+    destruct (init_sc c (fst (sess c (pw_store p))) (snd (sess c (pw_store p)))) as [s' ca'].
+    unfold pers_finish. rewrite flush_before_exec by reflexivity.
+    cbn [eng_finish e_initd e_v v_w v_log v_taint v_st v_ca]. rewrite orb_false_r. reflexivity.
 Qed.
+
+(* ---- the stored session and its normal form are served alike ------------------------------------- *)
+Definition pw_ok (c : config) (p : pworld) : Prop := s_input (fst (sess c (pw_store p))) = None.
+Definition pw_eqv (c : config) (p q : pworld) : Prop :=
+  norm_snap c (sess c (pw_store p)) = norm_snap c (sess c (pw_store q))
+  /\ pw_w p = pw_w q /\ pw_log p = pw_log q /\ pw_taint p = pw_taint q.
+
+Lemma fresh_state_input : forall c, s_input (fresh_state c) = None.
+Proof.
+  intros c. unfold fresh_state, st_set_language.
+  destruct (c_lang c); destruct (lang_lookup _); reflexivity.
+Qed.
+
+Lemma init_sc_input : forall c s ca, s_input (fst (init_sc c s ca)) = s_input s.
+Proof.
+  intros c s ca. unfold init_sc. destruct (s_code s); [|reflexivity].
+  destruct (stale s); [destruct (reset_sc s ca) as [[st ca'] r]|]; reflexivity.
+Qed.
+Lemma init_sc_code : forall c s ca, s_code (fst (init_sc c s ca)) <> [].
+Proof.
+  intros c s ca. unfold init_sc. destruct (s_code s) eqn:Ec; [|cbn [fst]; rewrite Ec; discriminate].
+  destruct (stale s); [destruct (reset_sc s ca) as [[st ca'] r]|]; cbn [fst s_code set_input_raw set_code]; apply encode_nonempty.
+Qed.
+Lemma init_sc_nonempty : forall c s ca, s_code s <> [] -> init_sc c s ca = (s, ca).
+Proof. intros c s ca H. unfold init_sc. destruct (s_code s); [congruence|reflexivity]. Qed.
+
+Lemma snap_of_none : forall s ca, s_input s = None -> snap_of s ca = (s, ca).
+Proof. intros s ca H. unfold snap_of. destruct s; cbn in *; subst; reflexivity. Qed.
+
+Lemma norm_snap_init : forall c sn, s_input (fst sn) = None -> norm_snap c sn = init_sc c (fst sn) (snd sn).
+Proof.
+  intros c [s ca] H. unfold norm_snap. cbn [fst snd] in *.
+  pose proof (init_sc_input c s ca) as Hi. destruct (init_sc c s ca) as [s' ca']. cbn [fst] in Hi.
+  apply snap_of_none. congruence.
+Qed.
+
+Lemma norm_snap_idem : forall c sn, s_input (fst sn) = None -> norm_snap c (norm_snap c sn) = norm_snap c sn.
+Proof.
+  intros c sn H. rewrite (norm_snap_init c sn H).
+  pose proof (init_sc_input c (fst sn) (snd sn)) as Hi. pose proof (init_sc_code c (fst sn) (snd sn)) as Hc.
+  destruct (init_sc c (fst sn) (snd sn)) as [s' ca']. cbn [fst] in *.
+  rewrite norm_snap_init by (cbn [fst]; congruence). cbn [fst snd]. apply init_sc_nonempty. exact Hc.
+Qed.
+
+Lemma sess_store0 : forall c o, sess c (store0_of c o) = sess c o.
+Proof.
+  intros c [sn|]; [reflexivity|]. unfold store0_of, sess. cbn [fst snd].
+  apply snap_of_none. apply fresh_state_input.
+Qed.
+
+(* what follows Exec treats equivalent fallback stores alike *)
+Lemma pers_finish_eqv : forall fuel rs c p q o1 o2 x,
+  pw_taint p = pw_taint q ->
+  norm_snap c (sess c o1) = norm_snap c (sess c o2) ->
+  pw_ok c (mkPw o1 [] [] false) -> pw_ok c (mkPw o2 [] [] false) ->
+  let '(p', r) := pers_finish fuel rs c p o1 x in
+  let '(q', r') := pers_finish fuel rs c q o2 x in
+  r = r' /\ pw_eqv c p' q' /\ pw_ok c p' /\ pw_ok c q'.
+Proof.
+  intros fuel rs c p q o1 o2 [[e1 cont] s] Ht Hn Hk1 Hk2. unfold pers_finish. rewrite Ht.
+  assert (Hbase : forall w lg t, pw_eqv c (mkPw o1 w lg t) (mkPw o2 w lg t)).
+  { intros. unfold pw_eqv. cbn [pw_store pw_w pw_log pw_taint]. auto. }
+  assert (Hsame : forall o w lg t, pw_eqv c (mkPw o w lg t) (mkPw o w lg t)).
+  { intros. unfold pw_eqv. auto. }
+  destruct s as [|er m|n|]; try (split; [reflexivity|split; [apply Hbase|split; assumption]]).
+  - destruct (eng_flush fuel rs c e1) as [[e2 out] f].
+    destruct f as [|er|n|]; try (split; [reflexivity|split; [apply Hbase|split; assumption]]);
+    unfold eng_finish; destruct (e_initd e2);
+      try (split; [reflexivity|split; [apply Hbase|split; assumption]]);
+      (split; [reflexivity|split; [apply Hsame|split; reflexivity]]).
+  - destruct (eng_flush fuel rs c e1) as [[e2 out] f].
+    destruct f as [|er'|n|]; try (split; [reflexivity|split; [apply Hbase|split; assumption]]);
+    unfold eng_finish; destruct (e_initd e2);
+      try (split; [reflexivity|split; [apply Hbase|split; assumption]]);
+      (split; [reflexivity|split; [apply Hsame|split; reflexivity]]).
+Qed.
+
+Lemma request_persisted_eqv : forall fuel rs c p q input,
+  c_first c = None -> pw_ok c p -> pw_ok c q -> pw_eqv c p q ->
+  let '(p', r) := request_persisted fuel rs c p input in
+  let '(q', r') := request_persisted fuel rs c q input in
+  r = r' /\ pw_eqv c p' q' /\ pw_ok c p' /\ pw_ok c q'.
+Proof.
+  intros fuel rs c p q input Hf Hp Hq [Hn [Hw [Hl Ht]]].
+  rewrite !request_persisted_finish, !new_engine_sess, !eng_exec_fresh by exact Hf.
+  rewrite <- Hw, <- Hl.
+  assert (Hi : init_sc c (fst (sess c (pw_store p))) (snd (sess c (pw_store p)))
+             = init_sc c (fst (sess c (pw_store q))) (snd (sess c (pw_store q)))).
+  { rewrite <- !norm_snap_init by assumption. exact Hn. }
+  assert (Hn0 : norm_snap c (sess c (store0_of c (pw_store p))) = norm_snap c (sess c (store0_of c (pw_store q)))).
+  { rewrite !sess_store0. exact Hn. }
+  assert (Hk1 : pw_ok c (mkPw (store0_of c (pw_store p)) [] [] false)).
+  { unfold pw_ok. cbn [pw_store]. rewrite sess_store0. exact Hp. }
+  assert (Hk2 : pw_ok c (mkPw (store0_of c (pw_store q)) [] [] false)).
+  { unfold pw_ok. cbn [pw_store]. rewrite sess_store0. exact Hq. }
+  destruct (INPUT_LIMIT <? len input).
+  - unfold pers_finish. rewrite !flush_before_exec by reflexivity.
+    cbn [eng_finish e_initd e_v v_w v_log v_taint]. rewrite Ht.
+    split; [reflexivity|]. split; [|split; assumption].
+    unfold pw_eqv. cbn [pw_store pw_w pw_log pw_taint]. auto.
+  - rewrite Hi.
+    exact (pers_finish_eqv fuel rs c p q _ _ _ Ht Hn0 Hk1 Hk2).
+Qed.
+
+Lemma request_persisted_ok : forall fuel rs c p input,
+  pw_ok c p -> pw_ok c (fst (request_persisted fuel rs c p input)).
+Proof.
+  intros fuel rs c p input Hp. rewrite request_persisted_finish.
+  assert (Hk : pw_ok c (mkPw (store0_of c (pw_store p)) [] [] false)).
+  { unfold pw_ok. cbn [pw_store]. rewrite sess_store0. exact Hp. }
+  destruct (eng_exec fuel rs c _ input) as [[e1 cont] s]. unfold pers_finish.
+  destruct s as [|er m|n|]; try exact Hk.
+  - destruct (eng_flush fuel rs c e1) as [[e2 out] f].
+    destruct f; try exact Hk; unfold eng_finish; destruct (e_initd e2); try exact Hk; reflexivity.
+  - destruct (eng_flush fuel rs c e1) as [[e2 out] f].
+    destruct f; try exact Hk; unfold eng_finish; destruct (e_initd e2); try exact Hk; reflexivity.
+Qed.
+
+Lemma pw_eqv_refl : forall c p, pw_eqv c p p.
+Proof. intros. unfold pw_eqv. auto. Qed.
+Lemma pw_eqv_sym : forall c p q, pw_eqv c p q -> pw_eqv c q p.
+Proof. unfold pw_eqv. intros c p q [A [B [C D]]]. auto. Qed.
+Lemma pw_eqv_trans : forall c p q r, pw_eqv c p q -> pw_eqv c q r -> pw_eqv c p r.
+Proof. unfold pw_eqv. intros c p q r [A [B [C D]]] [A' [B' [C' D']]]. repeat split; congruence. Qed.
+
+(* a refused request leaves an equivalent world *)
+Lemma refused_persisted_eqv : forall fuel rs c p input,
+  refused input -> c_first c = None -> pw_ok c p ->
+  pw_eqv c (fst (request_persisted fuel rs c p input)) p.
+Proof.
+  intros fuel rs c p input Hr Hf Hp. rewrite refused_persisted by assumption. cbn [fst].
+  unfold pw_eqv. cbn [pw_store pw_w pw_log pw_taint]. repeat split.
+  destruct (INPUT_LIMIT <? len input).
+  - rewrite sess_store0. reflexivity.
+  - cbn [sess]. apply norm_snap_idem. exact Hp.
+Qed.
+
+(* ---- serving a whole history ---------------------------------------------------------------------- *)
+Fixpoint serve_long (fuel : nat) (rs : rsrc) (c : config) (e : engine) (h : list bytes) : engine * list response :=
+  match h with
+  | [] => (e, [])
+  | i :: h' =>
+    let '(e1, r) := request_long fuel rs c e i in
+    let '(e2, rr) := serve_long fuel rs c e1 h' in (e2, r :: rr)
+  end.
+Fixpoint serve_pers (fuel : nat) (rs : rsrc) (c : config) (p : pworld) (h : list bytes) : pworld * list response :=
+  match h with
+  | [] => (p, [])
+  | i :: h' =>
+    let '(p1, r) := request_persisted fuel rs c p i in
+    let '(p2, rr) := serve_pers fuel rs c p1 h' in (p2, r :: rr)
+  end.
+
+Lemma serve_long_app : forall fuel rs c h1 h2 e,
+  serve_long fuel rs c e (h1 ++ h2) =
+  let '(e1, r1) := serve_long fuel rs c e h1 in
+  let '(e2, r2) := serve_long fuel rs c e1 h2 in (e2, r1 ++ r2).
+Proof.
+  induction h1 as [|i h1 IH]; intros h2 e.
+  - cbn [List.app serve_long]. destruct (serve_long fuel rs c e h2); reflexivity.
+  - cbn [List.app serve_long]. destruct (request_long fuel rs c e i) as [e1 r]. rewrite IH.
+    destruct (serve_long fuel rs c e1 h1) as [e2 r1]. destruct (serve_long fuel rs c e2 h2) as [e3 r2]. reflexivity.
+Qed.
+Lemma serve_pers_app : forall fuel rs c h1 h2 p,
+  serve_pers fuel rs c p (h1 ++ h2) =
+  let '(p1, r1) := serve_pers fuel rs c p h1 in
+  let '(p2, r2) := serve_pers fuel rs c p1 h2 in (p2, r1 ++ r2).
+Proof.
+  induction h1 as [|i h1 IH]; intros h2 p.
+  - cbn [List.app serve_pers]. destruct (serve_pers fuel rs c p h2); reflexivity.
+  - cbn [List.app serve_pers]. destruct (request_persisted fuel rs c p i) as [p1 r]. rewrite IH.
+    destruct (serve_pers fuel rs c p1 h1) as [p2 r1]. destruct (serve_pers fuel rs c p2 h2) as [p3 r2]. reflexivity.
+Qed.
+
+Lemma serve_pers_ok : forall fuel rs c h p, pw_ok c p -> pw_ok c (fst (serve_pers fuel rs c p h)).
+Proof.
+  induction h as [|i h IH]; intros p Hp; [exact Hp|].
+  cbn [serve_pers]. pose proof (request_persisted_ok fuel rs c p i Hp) as H1.
+  destruct (request_persisted fuel rs c p i) as [p1 r]. cbn [fst] in H1.
+  specialize (IH p1 H1). destruct (serve_pers fuel rs c p1 h) as [p2 rr]. exact IH.
+Qed.
+
+Lemma serve_pers_eqv : forall fuel rs c h p q,
+  c_first c = None -> pw_ok c p -> pw_ok c q -> pw_eqv c p q ->
+  snd (serve_pers fuel rs c p h) = snd (serve_pers fuel rs c q h)
+  /\ pw_eqv c (fst (serve_pers fuel rs c p h)) (fst (serve_pers fuel rs c q h)).
+Proof.
+  induction h as [|i h IH]; intros p q Hf Hp Hq He; [split; [reflexivity|exact He]|].
+  cbn [serve_pers]. pose proof (request_persisted_eqv fuel rs c p q i Hf Hp Hq He) as H1.
+  destruct (request_persisted fuel rs c p i) as [p1 r]. destruct (request_persisted fuel rs c q i) as [q1 r'].
+  destruct H1 as [Hr [He1 [Hp1 Hq1]]]. subst r'.
+  destruct (IH p1 q1 Hf Hp1 Hq1 He1) as [IH1 IH2].
+  destruct (serve_pers fuel rs c p1 h) as [p2 rr]. destruct (serve_pers fuel rs c q1 h) as [q2 rr'].
+  cbn [fst snd] in *. subst. split; [reflexivity|exact IH2].
+Qed.
+
+(* C17, persisted operation: a refused input inserted anywhere in a history *)
+Lemma as_if_never_sent_pers : forall fuel rs c p h1 bad h2,
+  c_first c = None -> pw_ok c p -> refused bad ->
+  let '(p1, r1) := serve_pers fuel rs c p h1 in
+  let '(pb, rb) := request_persisted fuel rs c p1 bad in
+  serve_pers fuel rs c p (h1 ++ [bad] ++ h2)
+    = (fst (serve_pers fuel rs c pb h2), r1 ++ [rb] ++ snd (serve_pers fuel rs c pb h2))
+  /\ serve_pers fuel rs c p (h1 ++ h2)
+    = (fst (serve_pers fuel rs c p1 h2), r1 ++ snd (serve_pers fuel rs c p1 h2))
+  /\ snd (serve_pers fuel rs c pb h2) = snd (serve_pers fuel rs c p1 h2)
+  /\ pw_eqv c (fst (serve_pers fuel rs c pb h2)) (fst (serve_pers fuel rs c p1 h2))
+  /\ pw_eqv c pb p1
+  /\ r_out rb = [] /\ r_exec rb = SErr EGen None /\ r_flush rb = FErr EFlushNoExec.
+Proof.
+  intros fuel rs c p h1 bad h2 Hf Hp Hr.
+  pose proof (serve_pers_ok fuel rs c h1 p Hp) as Hp1.
+  rewrite !serve_pers_app.
+  destruct (serve_pers fuel rs c p h1) as [p1 r1]. cbn [fst] in Hp1.
+  pose proof (refused_persisted_eqv fuel rs c p1 bad Hr Hf Hp1) as He.
+  pose proof (request_persisted_ok fuel rs c p1 bad Hp1) as Hpb.
+  pose proof (refused_persisted fuel rs c p1 bad Hr Hf) as Hrb.
+  cbn [List.app serve_pers].
+  destruct (request_persisted fuel rs c p1 bad) as [pb rb]. cbn [fst] in He, Hpb.
+  destruct (serve_pers_eqv fuel rs c h2 pb p1 Hf Hpb Hp1 He) as [E1 E2].
+  destruct (serve_pers fuel rs c pb h2) as [pb2 rr]. destruct (serve_pers fuel rs c p1 h2) as [p12 rr'].
+  cbn [fst snd] in *. injection Hrb as _ Hrb. subst rb.
+  split; [reflexivity|]. split; [reflexivity|]. split; [exact E1|]. split; [exact E2|]. split; [exact He|].
+  destruct (INPUT_LIMIT <? len bad); auto.
+Qed.
+
+(* C17, long-lived engine: a refused input sent to an initialised engine whose last Flush completed *)
+Lemma as_if_never_sent_long : forall fuel rs c e h1 bad h2,
+  refused bad ->
+  let '(e1, r1) := serve_long fuel rs c e h1 in
+  e_initd e1 = true -> settled e1 ->
+  let '(eb, rb) := request_long fuel rs c e1 bad in
+  serve_long fuel rs c e (h1 ++ [bad] ++ h2)
+    = (fst (serve_long fuel rs c eb h2), r1 ++ [rb] ++ snd (serve_long fuel rs c eb h2))
+  /\ serve_long fuel rs c e (h1 ++ h2)
+    = (fst (serve_long fuel rs c e1 h2), r1 ++ snd (serve_long fuel rs c e1 h2))
+  /\ snd (serve_long fuel rs c eb h2) = snd (serve_long fuel rs c e1 h2)
+  /\ (h2 <> [] -> fst (serve_long fuel rs c eb h2) = fst (serve_long fuel rs c e1 h2))
+  /\ (eb = e1 \/ eb = cleared e1)
+  /\ r_out rb = [] /\ r_exec rb = SErr EGen None.
+Proof.
+  intros fuel rs c e h1 bad h2 Hr. rewrite !serve_long_app.
+  destruct (serve_long fuel rs c e h1) as [e1 r1]. intros Hi Hs.
+  pose proof (refused_request_settled fuel rs c e1 bad Hr Hi Hs) as Hb.
+  pose proof (fun j => refused_then_next fuel rs c e1 bad j Hr Hi Hs) as Hn.
+  cbn [List.app serve_long].
+  destruct (request_long fuel rs c e1 bad) as [eb rb]. cbn [fst] in Hn.
+  assert (Hsame : h2 <> [] -> serve_long fuel rs c eb h2 = serve_long fuel rs c e1 h2).
+  { destruct h2 as [|j h2]; [congruence|]. intros _. cbn [serve_long]. rewrite Hn. reflexivity. }
+  assert (Hsnd : snd (serve_long fuel rs c eb h2) = snd (serve_long fuel rs c e1 h2)).
+  { destruct h2 as [|j h2]; [reflexivity|]. rewrite Hsame by discriminate. reflexivity. }
+  destruct (serve_long fuel rs c eb h2) as [eb2 rr] eqn:E1. destruct (serve_long fuel rs c e1 h2) as [e12 rr'] eqn:E2.
+  cbn [fst snd] in *.
+  split; [reflexivity|]. split; [reflexivity|]. split; [exact Hsnd|].
+  split; [intros H; specialize (Hsame H); congruence|].
+  destruct (stuck c e1); injection Hb as -> ->; cbn [r_out r_exec]; auto.
+Qed.
+
+(* the entry function does receive refused bytes: see props/C17.v (witness) *)
